@@ -34,7 +34,22 @@ static int op_setbit(int c, tok_t *a, out_t *o) { return dobit(mpz_setbit, c, a,
 static int op_clrbit(int c, tok_t *a, out_t *o) { return dobit(mpz_clrbit, c, a, o); }
 static int op_combit(int c, tok_t *a, out_t *o) { return dobit(mpz_combit, c, a, o); }
 
+/* f (w, u, cnt): mode wa wv ua uv cnt */
+typedef void (*fcnt_t)(mpz_ptr, mpz_srcptr, mp_bitcnt_t);
+static int docnt(fcnt_t f, int argc, tok_t *a, out_t *o) {
+  NEED(argc == 6 && ISUI(5)); long m = mode_of(&a[0]); NEED(m == 0 || m == 1);
+  unsigned long k = tok_ulong(&a[5]); NEED(k < (1UL << 26));
+  mpz_t w, u;
+  NEED(mk(w, &a[1], &a[2]) == 0);
+  if (mk(u, &a[3], &a[4])) { mpz_clear(w); return -1; }
+  if (m == 0) { f(w, u, k); outw(o, w); } else { f(u, u, k); outw(o, u); }
+  mpz_clear(w); mpz_clear(u); return 0;
+}
+static int op_cdiv_q_2exp(int c, tok_t *a, out_t *o) { return docnt(mpz_cdiv_q_2exp, c, a, o); }
+static int op_fdiv_q_2exp(int c, tok_t *a, out_t *o) { return docnt(mpz_fdiv_q_2exp, c, a, o); }
+
 const opdef_t ops_allocsafe3[] = {
+  {"as3_cdiv_q_2exp", op_cdiv_q_2exp}, {"as3_fdiv_q_2exp", op_fdiv_q_2exp},
   {"as3_setbit", op_setbit}, {"as3_clrbit", op_clrbit}, {"as3_combit", op_combit},
   {0, 0}
 };
